@@ -47,6 +47,14 @@ def gen_case(st, tier):
             "rps": [{"name": "r%d" % i, "h": rp.getrandbits(40), "multi": rp.random() < 0.25,
                      "ph": rp.getrandbits(40)} for i in range(nrp)],
             "classes": [], "store_skips": rk.random() < 0.3, "debug_log": rk.random() < 0.25}
+    # contexts in a sub-class relation, as JBossContext(HostContext) is: the broker is keyed by the exact class, so an
+    # implementation for the base context says nothing about the derived one  (own PRNG: older cases stay what they were)
+    from simkit.seeds import h64
+    import random as _r
+    rb = _r.Random(h64(st.seed, "ctxbase"))
+    for k in range(1, nctx):
+        if rb.random() < 0.3:
+            case["contexts"][k]["base"] = rb.randrange(k)
     for c in range(ncls):
         impls = {}
         for r in case["rps"]:
@@ -185,8 +193,11 @@ class SpecWorld(object):
 
     def build(self):
         case = self.case
-        self.ctxs = [SeededCtxMeta(c["name"], (ExecutionContext,), {"_h": c["h"], "__module__": w1.MODNAME})
-                     for c in case["contexts"]]
+        self.ctxs = []
+        for c in case["contexts"]:
+            b = c.get("base")
+            parent = self.ctxs[b] if b is not None and b < len(self.ctxs) else ExecutionContext
+            self.ctxs.append(SeededCtxMeta(c["name"], (parent,), {"_h": c["h"], "__module__": w1.MODNAME}))
         body = {"__module__": w1.MODNAME}
         self.rps = {}
         for r in case["rps"]:
@@ -437,6 +448,9 @@ def shrink(case):
         if k not in used and len(case["contexts"]) > 1:
             c = _copy(case)
             del c["contexts"][k]
+            for cx in c["contexts"]:
+                if cx.get("base") is not None:
+                    cx["base"] = None if cx["base"] == k else (cx["base"] - 1 if cx["base"] > k else cx["base"])
 
             def rm(j):
                 return j - 1 if j > k else j
